@@ -86,7 +86,7 @@ def run(ctx):
                 if isinstance(n, ast.Name) and n.id == g.stubs and isinstance(n.ctx, ast.Load):
                     st = g.par.stmt_of(n)
                     # header of a compound statement: the statement node itself
-                    if st is sh or g.par.inside(n, sh):
+                    if st is sh or g.par.inside(n, sh) or g.in_build(n):
                         continue
                     reads.append(st)
             bad = [st for st in reads if not cfg.dominates(sh, st)]
